@@ -26,7 +26,7 @@ CORE_KINDS = [
     "callback-positional", "callback-keyword", "callback-keyword-only", "callback-kwargs-call", "stored-global", "callback-bound-method", "returned-closure", "returned-function",
     "returned-function-local", "returned-param", "stored-variable", "stored-list", "stored-list-read", "stored-dict",
     "stored-field", "stored-field-self", "stored-class", "callback-constructor", "method-on-field", "method-on-self-field",
-    "method-on-returned-self", "stored-list-loop", "stored-dict-loop", "method-on-list-element", "cond-alias", "recursion", "mutual-recursion", "recursive-method",
+    "method-on-returned-self", "stored-list-loop", "stored-dict-loop", "method-on-list-element", "cond-alias", "recursion", "mutual-recursion", "recursive-method", "recursion-callback",
 ]
 EXT_KINDS = [
     "self-dispatch-subclass", "self-dispatch-noinit-subclass", "self-dispatch-explicit-init-subclass",
@@ -515,11 +515,33 @@ class Gen:
         return e
 
     def def_rec(self, mod):
-        flavour = self.ch.pick(["self", "self", "mutual", "mutual", "mutual3"])
-        kind = "recursion" if flavour == "self" else "mutual-recursion"
+        flavour = self.ch.pick(["self", "self", "mutual", "mutual", "mutual3", "self-cb", "self-cb"])
+        if flavour == "self-cb" and (self.avoided("recursion-callback") or self.avoided("recursion")):
+            flavour = "self"
+        kind = "mutual-recursion" if flavour.startswith("mutual") else "recursion"
         if self.avoided(kind):
             return None
         out = mod.body
+        if flavour == "self-cb":
+            # the recursive call passes another callable than the outer call: the callee has to be analysed under the
+            # recursive call site, not only recorded
+            name = mod.fresh("r")
+            e = self.new_ent(mod, name, "rec")
+            outer, inner, work = name + "_o", name + "_i", name + "_w"
+            for fn in (outer, inner):
+                out.append(Line("def %s(x):" % fn))
+                out.append(Line("    return x"))
+                out.append(Line(""))
+            out.append(Line("def %s(n, cb):" % work))
+            out.append(Line("    %s = cb(n)" % mod.fresh("v"), "recursion-callback", "local"))
+            out.append(Line("    if n <= 0:"))
+            out.append(Line("        return 0"))
+            out.append(Line("    return %s(n - 1, %s)" % (work, inner), "recursion", "local"))
+            out.append(Line(""))
+            out.append(Line("def %s(n):" % name))
+            out.append(Line("    return %s(n, %s)" % (work, outer), "direct", "local"))
+            out.append(Line(""))
+            return e
         if flavour == "self":
             name = mod.fresh("r")
             e = self.new_ent(mod, name, "rec")
